@@ -15,6 +15,7 @@
 (*   Copy(i)         copy.deepcopy(obj): one more representative           *)
 (*   Obs(i)          run the query battery on obj (no state change)        *)
 (*   Query(op,i,j)   a pure query on two live objects (no state change)    *)
+(*   NegObj(i), MoveKeep(i, v)  derive a new live object from a live object   *)
 (*   Mutate(k, v)    move / assign a Point that was a constructor argument *)
 (*                   (the objects built from it own their data: no change) *)
 (***************************************************************************)
@@ -43,6 +44,23 @@ Move(i, v) == /\ heap' = [heap EXCEPT ![i] = Translate(@, v)]
               /\ disp' = [disp EXCEPT ![i] = Add(@, v)]
               /\ UNCHANGED <<orig, args, ncopy>>
               /\ Step([act |-> "Move", id |-> i, v |-> v, post |-> Translate(heap[i], v)])
+\* objects derived from live objects enter the heap as new, independent objects (at most two per session):
+\*   NegObj(i)       -polygon: the same point set with the opposite orientation
+\*   MoveKeep(i, v)  obj.move(v) whose RETURN VALUE is kept: the receiver moves in place, the returned object is a new object at the same place
+NegOf(p)   == MkPolygon(CCWCycle(Range(p.cyc), Neg(p.n)), Neg(p.n))
+NDerived   == Cardinality({ n \in DOMAIN hist : hist[n].act \in {"Neg", "MoveKeep"} })
+Grow(o)    == /\ orig' = Append(orig, o) /\ disp' = Append(disp, Zero3) /\ ncopy' = Append(ncopy, 0) /\ UNCHANGED args
+NegObj(i)  == /\ heap[i].k = "Polygon" /\ NDerived < 2
+              /\ heap' = Append(heap, NegOf(heap[i])) /\ Grow(NegOf(heap[i]))
+              /\ Step([act |-> "Neg", id |-> i, val |-> NegOf(heap[i])])
+\* (Line.move and Plane.move return Line(self.sv, self.dv) / Plane(self.p, self.n), which share the receiver's support vector / point:
+\*  Plane and a Line built from Vectors are not among the owning types of C20, so independence is claimed for the owning kinds only)
+Owners == {"Point", "Segment", "HalfLine", "Polygon", "Polyhedron"}
+MoveKeep(i, v) == /\ NDerived < 2 /\ heap[i].k \in Owners
+                  /\ heap' = Append([heap EXCEPT ![i] = Translate(@, v)], Translate(heap[i], v))
+                  /\ orig' = Append(orig, Translate(heap[i], v)) /\ disp' = Append([disp EXCEPT ![i] = Add(@, v)], Zero3)
+                  /\ ncopy' = Append(ncopy, 0) /\ UNCHANGED args
+                  /\ Step([act |-> "MoveKeep", id |-> i, v |-> v, post |-> Translate(heap[i], v)])
 Copy(i)    == /\ ncopy' = [ncopy EXCEPT ![i] = @ + 1] /\ UNCHANGED <<heap, orig, disp, args>>
               /\ Step([act |-> "Copy", id |-> i, val |-> heap[i]])
 Obs(i)     == UNCHANGED <<heap, orig, disp, args, ncopy>> /\ Step([act |-> "Obs", id |-> i])
@@ -83,6 +101,8 @@ Mutate(k, v) == /\ args' = [args EXCEPT ![k] = Add(@, v)] /\ UNCHANGED <<heap, o
 Next == /\ Len(hist) < MaxDepth
         /\ \/ "Move" \in Alphabet /\ \E i \in Ids, v \in MoveVecs : Move(i, v)
            \/ "Copy" \in Alphabet /\ \E i \in Ids : ncopy[i] < 1 /\ Copy(i)
+           \/ "Neg" \in Alphabet /\ \E i \in Ids : NegObj(i)
+           \/ "MoveKeep" \in Alphabet /\ \E i \in Ids, v \in MoveVecs : MoveKeep(i, v)
            \/ "Obs" \in Alphabet /\ \E i \in Ids : (IF hist = <<>> THEN TRUE ELSE hist[Len(hist)].act # "Obs") /\ Obs(i)
            \/ "Query" \in Alphabet /\ \E op \in QueryOps, i \in Ids, j \in Ids : Query(op, i, j)
            \/ "Mutate" \in Alphabet /\ \E k \in DOMAIN args, v \in MoveVecs : Mutate(k, v)
@@ -96,6 +116,8 @@ NextSim == /\ Len(hist) < MaxDepth
            /\ LET i == RandomElement(Ids)  j == RandomElement(Ids)  v == RandomElement(MoveVecs)
               IN \/ "Move" \in Alphabet /\ Move(i, v)
                  \/ "Copy" \in Alphabet /\ ncopy[i] < 1 /\ Copy(i)
+                 \/ "Neg" \in Alphabet /\ NegObj(i)
+                 \/ "MoveKeep" \in Alphabet /\ MoveKeep(i, v)
                  \/ "Obs" \in Alphabet /\ Obs(i)
                  \/ "Query" \in Alphabet /\ \E op \in QueryOps : Query(op, i, j)
                  \/ "Mutate" \in Alphabet /\ DOMAIN args # {} /\ Mutate(RandomElement(DOMAIN args), v)
